@@ -7,9 +7,9 @@
      starts_with p s             s.startswith(p) ;  split2_colon s    a, b = s.split(":") (ValueError unless exactly two pieces) ;  int_of_str s   int(s)
      group_of cs tok             m.group(index) of the named group tok (a group that did not take part in the match: outside the fragment)
      leading_int value           int(re.match(r"(\d+)", value).group(1)) (AttributeError on None.group when there is no leading digit)
-     parse_meridiem              the `a` / `A` branch of _get_parsed_locale_value — NOT translated: the hand model (list of the two translations, lower(), index) *)
+     parse_meridiem              the `a` / `A` branch of the hand model get_parsed_locale_value, as a function (the translated branch gen_parse_meridiem is proved equal to it) *)
 From Coq Require Import ZArith List Bool.
-From PV Require Import Lib.PyBase Model.FormatterBase Gen.FormatterTables Gen.LocaleTables Model.Formatter Model.FormatterParse.
+From PV Require Import Lib.PyBase Spec.Cal Model.FormatterBase Gen.FormatterTables Gen.LocaleTables Model.Formatter Model.FormatterParse.
 Import ListNotations.
 Open Scope Z_scope.
 
@@ -44,3 +44,60 @@ Definition parse_meridiem (loc : locale_data) (tok value : str) (p : parsed) : r
       else Raise E_ValueError
   | _, _ => Unsupported
   end.
+
+(* ------------------------------------------------------------------ primitives of the translated _check_parsed and of the a / A branch
+     date3                       the (year, month, day) a pendulum DateTime shows where _check_parsed reads only dt.year / dt.month / dt.day
+     mk_date y m d               pendulum.datetime(y, m, d): ValueError outside 1..9999 / for an impossible date
+     jan1 y / jan1_of_now now    dt.start_of("year") of a date3 / of `now` (a `now` outside the calendar: outside the fragment)
+     quarter_loop d q            while dt.quarter != q: dt = dt.add(months=3) — unrolled three additions deep (the four quarters of a year starting from a first quarter);
+                                 still not found, or a day above 28 (add(months=3) would clamp): outside the fragment
+     parse_ordinal rs y doy      pendulum.parse(f"{y}-{doy:>03d}"): the ISO ordinal date through the pure-Python / compiled parser model (doy_to_md_py / doy_to_md_rs)
+     week_eve d                  dt.start_of("week").subtract(days=1) as an ordinal (range checks are made by next_weekday: the model's reading)
+     next_weekday eve dow        dt.next(dow): ValueError for a weekday outside 0..6; a result outside the calendar: outside the fragment
+     ts_has_point / ts_frac_us   "." in str(ts) (always, for a float below 1e16) / int(str(ts).split(".")[1].ljust(6, "0")) = the microseconds kept with the timestamp
+     ts_local_time rs ts us      helpers.local_time(ts, 0, us) (math.floor(ts) = fst ts) through the translated / compiled model; seconds outside years 1..9999: outside the fragment
+     need_strs / py_lower / lower_all / index_of / nth_str    the list of the two day-period translations (a missing one: outside the fragment), str.lower() on ASCII (else
+                                 outside the fragment), list.index (ValueError), indexing a list of literals *)
+Definition date3 := (Z * Z * Z)%type.
+Definition d3_year (d : date3) : Z := let '(y, _, _) := d in y.
+Definition d3_month (d : date3) : Z := let '(_, m, _) := d in m.
+Definition d3_day (d : date3) : Z := let '(_, _, dd) := d in dd.
+Definition mk_date (y m d : Z) : result date3 := if date_ok y m d then Ok (y, m, d) else Raise E_ValueError.
+Definition jan1 (y : Z) : date3 := (y, 1, 1).
+Definition jan1_of_now (now : pnow) : result date3 := if date_ok (n_year now) 1 1 then Ok (jan1 (n_year now)) else Unsupported.
+Definition quarter_of (d : date3) : Z := (d3_month d - 1) / 3 + 1.
+Definition add3 (d : date3) : date3 := let '(y, m, dd) := d in if m + 3 <=? 12 then (y, m + 3, dd) else (y + 1, m + 3 - 12, dd).
+Fixpoint quarter_loop_f (fuel : nat) (d : date3) (q : Z) : result date3 :=
+  if quarter_of d =? q then Ok d
+  else match fuel with
+       | O => Unsupported
+       | S f => if 28 <? d3_day d then Unsupported else quarter_loop_f f (add3 d) q
+       end.
+Definition quarter_loop (d : date3) (q : Z) : result date3 := quarter_loop_f 3 d q.
+Definition parse_ordinal (rs : bool) (year doy : Z) : result date3 :=
+  if (1000 <=? year) && (year <=? 9999) && (0 <=? doy) then
+    bind ((if rs then doy_to_md_rs else doy_to_md_py) year doy) (fun '(m, d) => Ok (year, m, d))
+  else Unsupported.
+Definition week_eve (d : date3) : Z := let '(y, m, dd) := d in let n := ymd2ord y m dd in n - weekday0 n - 1.
+Definition next_weekday (eve dow : Z) : result date3 :=
+  if (dow <? 0) || (6 <? dow) then Raise E_ValueError
+  else let target := eve + 1 + dow in
+       if (target <? 1) || (3652059 <? target) then Unsupported else Ok (ord2ymd target).
+Definition ts_has_point (ts : Z * Z) : bool := true.
+Definition ts_frac_us (ts : Z * Z) : Z := snd ts.
+Definition ts_local_time (rs : bool) (ts : Z * Z) (us : Z) : result (Z * Z * Z * Z * Z * Z * Z) :=
+  if (ts_min <=? fst ts) && (fst ts <=? ts_max) then
+    match local_time_of rs (fst ts) us with Some t => Ok t | None => Unsupported end
+  else Unsupported.
+Definition is_some {A} (o : option A) : bool := match o with Some _ => true | None => false end.
+Definition or_z (v d : Z) : Z := if v =? 0 then d else v.
+
+Definition need_strs (l : list (option str)) : result (list str) :=
+  fold_right (fun o acc => match o, acc with Some s, Ok r => Ok (s :: r) | _, _ => Unsupported end) (Ok []) l.
+Definition py_lower (s : str) : result str := if all_ascii s then Ok (map ascii_lower s) else Unsupported.
+Fixpoint lower_all (l : list str) : result (list str) :=
+  match l with [] => Ok [] | s :: t => bind (py_lower s) (fun s' => bind (lower_all t) (fun t' => Ok (s' :: t'))) end.
+Fixpoint index_of (v : str) (l : list str) : result Z :=
+  match l with [] => Raise E_ValueError | s :: t => if str_eqb v s then Ok 0 else bind (index_of v t) (fun i => Ok (i + 1)) end.
+Definition nth_str (l : list str) (i : Z) : result str :=
+  if i <? 0 then Unsupported else match nth_error l (Z.to_nat i) with Some s => Ok s | None => Raise E_IndexError end.
